@@ -299,7 +299,8 @@ def recvCreates (maxPath maxName : Nat) (sidecarDir suffix : Bytes) (noRoot resu
     | [] => acc
     | b :: rest =>
       if (validateRelPath maxPath b.rel).isSome then acc else
-      match m.items.find? (fun it => !it.isDir && it.rel == b.rel) with
+      -- `itemByRelPath[rel] = item` over the non-directory items in manifest order: a repeated path keeps its last entry
+      match (m.items.filter (fun it => !it.isDir && it.rel == b.rel)).getLast? with
       | none => acc
       | some it =>
         if it.size ≠ b.size then acc else
